@@ -12,6 +12,7 @@
 #define OS_FUTEX_HOOK
 #define OS_POLL_HOOK
 #define OS_COND_HOOK
+#define OS_FUTEX_NO_ORDER_CHECK	/* this harness calls the futex wrappers themselves, on an arbitrary word */
 #include <verif/os_stubs.h>
 #if defined(WHICH_QSBR)
 # define SRC "urcu-qsbr.c"
